@@ -360,6 +360,11 @@ def check_pair_constructor(ctx: Ctx):
         ctx.decide("R10.4", init, init.node, construct + ":" + attr, f"{attr} holds the {side.lower()} array", isinstance(v, AArr) and v.side == side, {"got": repr(v)[:80]}, nontrivial=False)
 
 
+class _ArithArr:
+    def __init__(self, op, l, r):
+        self.op, self.l, self.r = op, l, r
+
+
 class _ShapeV:
     def __init__(self, side):
         self.side = side
@@ -439,7 +444,17 @@ def check_crop_mask(ctx: Ctx):
                 u = self._union([l, r])
                 if u is not None:
                     return u
+            if isinstance(op, (ast.Add, ast.Mult, ast.Sub)) and isinstance(l, AArr) and isinstance(r, AArr):
+                return _ArithArr(type(op).__name__, l, r)
             return super().binop_hook(op, l, r, node)
+
+        def compare_hook(self, op, l, r, node):
+            if isinstance(l, _ArithArr) and r == 0 and isinstance(op, (ast.NotEq, ast.Gt)):
+                # (a + b) != 0 on label arrays: in the arrays' own unsigned dtype the sum of two
+                # labels can wrap to 0 (128 + 128 in uint8), a product or difference can vanish
+                u = _UnionMask([AMask(l.l, "nonzero"), AMask(l.r, "nonzero")], op="arithmetic " + l.op + " of the label arrays, which can wrap to 0 in their dtype")
+                return u
+            return super().compare_hook(op, l, r, node)
 
         def store_subscript_hook(self, base, idx, v, node):
             if isinstance(base, _UnionMask) and v is True:
@@ -556,6 +571,7 @@ VARIANTS = [
     Variant("C10-m-crop-mask-ref-only", "R10.3", "mutant", [(_FN, "combined = np.logical_or(prediction_arr != 0, reference_arr != 0)", "combined = reference_arr != 0")]),
     Variant("C10-m-crop-mask-label-one", "R10.3", "mutant", [(_FN, "combined = np.logical_or(prediction_arr != 0, reference_arr != 0)", "combined = np.logical_or(prediction_arr != 1, reference_arr != 0)")]),
     Variant("C10-m-crop-mask-and", "R10.3", "mutant", [(_FN, "combined = np.logical_or(prediction_arr != 0, reference_arr != 0)", "combined = np.logical_and(prediction_arr != 0, reference_arr != 0)")]),
+    Variant("C10-m-crop-mask-sum", "R10.3", "mutant", [(_FN, "combined = np.logical_or(prediction_arr != 0, reference_arr != 0)", "combined = (prediction_arr + reference_arr) != 0")]),
     Variant("C10-t-crop-mask-bitor", "R10.3", "twin", [(_FN, "combined = np.logical_or(prediction_arr != 0, reference_arr != 0)", "combined = (reference_arr > 0) | (prediction_arr > 0)")]),
     Variant("C10-m-no-clip", "R10.2", "mutant", [(_N, "            max(out[i] - px_dist[i // 2], 0),", "            out[i] - px_dist[i // 2],")], control=True),
     Variant("C10-m-stop-short", "R10.2", "mutant", [(_N, "            min(out[i + 1] + px_dist[i // 2], shp[i // 2]) + 1,", "            min(out[i + 1] + px_dist[i // 2], shp[i // 2]),")], control=True),
